@@ -15,6 +15,7 @@ import (
 
 	"verif/checker/internal/lin"
 	"verif/checker/internal/load"
+	"verif/checker/internal/modsum"
 	"verif/checker/internal/report"
 	"verif/checker/internal/shape"
 )
@@ -24,6 +25,7 @@ type Ctx struct {
 	Tier  string
 	Run   *report.Run
 	cache map[string][]*shape.Result
+	ms    *modsum.Analysis
 }
 
 func NewCtx(p *load.Program, tier string, run *report.Run) *Ctx {
